@@ -299,29 +299,29 @@ func runC14(c *core.Ctx) {
 						}
 					}
 				}
-				st, ok := isListStore(in)
-				if !ok {
-					continue
-				}
-				fa := st.Addr.(*ssa.FieldAddr)
-				if _, fresh := fa.X.(*ssa.Alloc); fresh {
-					continue // initialising the next pointer of the item being created
-				}
-				if fieldVar(fa) != headF {
-					c.Fail("C14-R1", m+"|writes item.next", c.P.Pos(st.Pos()), m+" rewires an interior next pointer; only pop may unlink")
-					continue
-				}
-				nLinks++
-				val := a.D.D(st.Val).String()
-				facts := a.FactsAt(st)
-				fresh := strings.HasPrefix(val, "new:"+qN+"item{")
-				carriesMsg := strings.Contains(val, "message: select(") || strings.Contains(val, "message: <-")
-				keepsTail := strings.Contains(val, "next: p0.head")
-				_, headNil := facts.Has("isnil(p0.head)")
-				c.Decide(fresh && carriesMsg, "C14-R1", fmt.Sprintf("%s|head store #%d links the received message", m, nLinks), c.P.Pos(st.Pos()), clip(val), m+" stores "+clip(val)+" as head: the head may only become a fresh item carrying the message just received")
-				c.Decide(keepsTail || headNil, "C14-R1", fmt.Sprintf("%s|head store #%d keeps the rest of the list", m, nLinks), c.P.Pos(st.Pos()), "next = old head (or head was nil)",
-					"the new head's next pointer is not the previous head and the head is not known to be nil: every message already queued is cut off and lost")
 			}
+		}
+		// list stores in the function and in the private helpers it calls (e.g. an extracted "prepend")
+		for _, ss := range storesWhere(f, func(st *ssa.Store) bool { _, ok := isListStore(st); return ok }) {
+			st := ss.Store
+			fa := st.Addr.(*ssa.FieldAddr)
+			if _, fresh := fa.X.(*ssa.Alloc); fresh {
+				continue // initialising the next pointer of the item being created
+			}
+			if fieldVar(fa) != headF {
+				c.Fail("C14-R1", m+"|writes item.next", c.P.Pos(st.Pos()), m+" rewires an interior next pointer; only pop may unlink")
+				continue
+			}
+			nLinks++
+			val := ss.Val(c).String()
+			facts := ss.Facts(c)
+			fresh := strings.HasPrefix(val, "new:"+qN+"item{")
+			carriesMsg := strings.Contains(val, "message: select(") || strings.Contains(val, "message: <-")
+			keepsTail := strings.Contains(val, "next: p0.head")
+			_, headNil := facts.Has("isnil(p0.head)")
+			c.Decide(fresh && carriesMsg, "C14-R1", fmt.Sprintf("%s|head store #%d links the received message", m, nLinks), c.P.Pos(st.Pos()), clip(val), m+" stores "+clip(val)+" as head: the head may only become a fresh item carrying the message just received")
+			c.Decide(keepsTail || headNil, "C14-R1", fmt.Sprintf("%s|head store #%d keeps the rest of the list", m, nLinks), c.P.Pos(st.Pos()), "next = old head (or head was nil)",
+				"the new head's next pointer is not the previous head and the head is not known to be nil: every message already queued is cut off and lost")
 		}
 		c.Min("C14-R1", nRecv, 1, "inbox receives in "+m)
 	}
